@@ -20,7 +20,8 @@ THEOREMS = ["C20_topo", "C20_checker_sound", "C20_checker_complete", "C20_trace_
 RULE = ("random DAGs (linear, forks, merges up to 6 parents, repeated parents, several roots, disconnected "
         "components), ids relabelled at random, log order shuffled; plus deep histories of 1100-2600 (thorough: up to 12000) "
         "revisions in a row - linear, mostly linear with side branches, merge ladders - newest-first, oldest-first and "
-        "shuffled; non-trivial = at least one merge "
+        "shuffled; every log is also sorted with its ids as 20-byte strings / str / tuples / mixed types and parents as tuples "
+        "(same order required); non-trivial = at least one merge "
         "(>=2 parents) or >=2 roots; distinct = distinct (log) request")
 TRUSTED = ["Python dict/deque/defaultdict semantics as modelled in model/Topo.v (dict keeps last value per key, "
            "defaultdict(list) appends, deque FIFO generalised to an arbitrary pick oracle)"]
@@ -120,11 +121,34 @@ def classify(c):
     return ks
 
 
+def _idv(i, kind, k=0):
+    """the revision id i in another hashable type (real logs carry 20-byte ids; nothing may depend on ids being ints)"""
+    if kind == "bytes":
+        return i.to_bytes(20, "big")
+    if kind == "str":
+        return "rev-%d" % i
+    if kind == "tuple":
+        return (i, "x")
+    if kind == "mixed":
+        return [i, i.to_bytes(20, "big"), "rev-%d" % i, (i,)][(i + k) % 4]
+    return i
+
+
 def impl(c):
     from swh.model.toposort import toposort
     log = [{"id": i, "parents": list(ps)} for i, ps in c["log"]]
     try:
         out = [r["id"] for r in toposort(log)]
+        # same log with ids of other hashable types, parents as tuples, extra keys: the order must be the same
+        kind = ["bytes", "str", "tuple", "mixed"][len(c["log"]) % 4]
+        back = {}
+        for i, ps in c["log"]:
+            for x in [i] + list(ps):
+                back[_idv(x, kind)] = x
+        log2 = [{"id": _idv(i, kind), "parents": tuple(_idv(p, kind) for p in ps), "message": b"m", "date": None} for i, ps in c["log"]]
+        out2 = [back[r["id"]] for r in toposort(log2)]
+        if out2 != out:
+            return {"ok": out, "ok_generator": out, "ok_iterator": out, "other_id_types": [kind, out2[:12]]}
         # the same log as one-shot iterables (a generator, an iterator), as Storage.revision_log() yields it
         out_gen = [r["id"] for r in toposort(r for r in log)]
         out_it = [r["id"] for r in toposort(iter(tuple(log)))]
@@ -161,6 +185,9 @@ def oracle(c, ires, mres):
         return "toposort raised " + ires.get("error", "?")
     out = ires["ok"]
     log = c["log"]
+    if "other_id_types" in ires:
+        return "the order changes when the ids are %s instead of ints (parents given as tuples): %s instead of %s" % (
+            ires["other_id_types"][0], ires["other_id_types"][1], out[:12])
     if ires.get("ok_generator") != out or ires.get("ok_iterator") != out:
         return "the result depends on whether the log is a list or a one-shot iterable: %s / %s / %s" % (
             out[:8], ires.get("ok_generator", [])[:8], ires.get("ok_iterator", [])[:8])
